@@ -303,6 +303,18 @@ def main(argv):
     if rc_drv != 0:
         rp = write_replay(prop, "model", "the Lean model/driver no longer builds (regenerated constants?)", [], {"log": out_drv[-3000:]})
         violations.append(("model", "model does not build", rp, False))
+    else:
+        # the L0 layer of the model against independent vectors (hashlib / RFC 9380 / zcash encodings / pairing
+        # identities): a model that drifted from its references is reported before it is compared with the code
+        try:
+            rc_st, out_st = run([os.path.join(LEAN, ".lake", "build", "bin", "zkdriver"), "selftest"], timeout=300)
+            if rc_st != 0:
+                rp = write_replay(prop, "model", "the L0 self-test of the Lean model fails (hash / curve / pairing reference vectors)", [], {"log": out_st[-2000:]})
+                violations.append(("model", "L0 self-test of the model fails", rp, False))
+            else:
+                notes.append("L0 self-test of the model: " + out_st.strip().splitlines()[-1])
+        except Exception as e:
+            notes.append("L0 self-test not run: %s" % e)
     if prop == "C11":
         # the generator table is regenerated from the compiled crate (N = 64 quick, 256 thorough)
         rc_t, out_t = run([hbin, "gentable", "256" if a.tier == "thorough" else "64"])
@@ -379,6 +391,44 @@ def main(argv):
                 if w is not None and w.split(" ")[0] != o["impl"].split(" ")[0]:
                     oracle["failures"].append({"class": prop + ".corpus", "what": "corpus case regressed: expected %s, implementation now %s" % (w.split(" ")[0], o["impl"].split(" ")[0]), "lines": [o["id"]], "suite": o["suite"]})
             ops_all = cops + ops_all
+    # C10: the draft's own test vectors (shipped with the crate) as operations whose expected outcome is
+    # the FIXTURE's; implementation must reproduce them octet for octet, and the model the implementation
+    if prop == "C10":
+        fdir = os.path.join(work, "fixtures")
+        os.makedirs(fdir, exist_ok=True)
+        ftxt = os.path.join(fdir, "fixtures.txt")
+        rcf, outf = run([sys.executable, os.path.join(VERIF, "scripts", "fixtures_ops.py"), ftxt], timeout=300)
+        if rcf == 0 and os.path.exists(ftxt):
+            try:
+                notes.append("draft fixtures replayed: " + outf.strip().splitlines()[-1])
+            except Exception:
+                pass
+            rc2, out2 = run([hbin, "replay", a.tier, str(seed), fdir, ftxt], env=env, timeout=3600)
+            if rc2 == 0:
+                fops = parse_ops(os.path.join(fdir, "ops.txt"))
+                want = {}
+                for l in open(ftxt):
+                    if " => " in l:
+                        lhs, _, rhs = l.rstrip("\n").partition(" => ")
+                        want[lhs.split(" ")[0]] = rhs
+                seen = set()
+                for o in fops:
+                    w = want.get(o["id"])
+                    seen.add(o["id"])
+                    o["id"] = "f" + o["id"]
+                    o["lhs"] = "f" + o["lhs"]
+                    oracle["oracle_checks"] = oracle.get("oracle_checks", 0) + 1
+                    if w is not None and w != o["impl"]:
+                        oracle["failures"].append({"class": "C10.fixture", "what": "the implementation does not reproduce a test vector of the draft (%s): expected %s, got %s" % (o["op"], short(w, 40), short(o["impl"], 40)), "lines": [o["id"]], "suite": o["suite"]})
+                missing = [k for k in want if k not in seen]
+                if missing:
+                    oracle["failures"].append({"class": "C10.fixture_unparsed", "what": "%d fixture operations could not be run by the implementation (argument no longer decodes)" % len(missing), "lines": [], "suite": "-"})
+                oracle.setdefault("stats", {})["C10.fixture_ops"] = len(fops)
+                ops_all = fops + ops_all
+            else:
+                notes.append("fixture replay failed: " + out2[-300:])
+        else:
+            notes.append("no draft fixtures found under %s (fixture_data missing?)" % REPO)
     rj = os.path.join(gen_dir, "ops.jsonl")
     if os.path.exists(rj):
         for l in open(rj):
@@ -488,7 +538,7 @@ def main(argv):
             "obligations": max(obligations, 1), "discharged": okc,
             "checker_cmd": "cd /verif/lean && lake build %s && lake env lean <audit file with #print axioms per theorem>%s" % (reg["module"], " && lake env leanchecker " + reg["module"] if a.tier == "thorough" else ""),
             "trusted_base": ["Lean 4.33 kernel", "axioms: propext, Classical.choice, Quot.sound (Mathlib)",
-                             ("hypothesis Lawful env (L0 BLS12-381 is a prime-order bilinear group with canonical codecs) — assumed, pinned by KATs and the correspondence run"
+                             ("hypothesis Lawful env: group law of L0 BLS12-381 and bilinearity/non-degeneracy of the implemented pairing are assumed (pinned by the L0 self-test and the correspondence run); primality of r and p, the scalar field with its codec, and canonical G1/G2 point codecs are proven for the concrete instance"
                               if engine == "bbs" else
                               "CL03 model over Int: rug/GMP semantics, SHA-256 and the primality oracle are modelled (IntArith specs proven in Lean); every random draw replayed from the recorded tape and checked against its contract"),
                              "correspondence check (differential, this run) ties ZkModel.L1 to the Rust code",
